@@ -14,6 +14,8 @@ inductive Frag : Bytes → List Ev → Prop
   | done (rest : List Ev) : Frag [] rest
   | timeout {b : Bytes} {s : List Ev} : Frag b s → Frag b (.timeout :: s)
   | data {b : Bytes} {s : List Ev} (c : Bytes) : c ≠ [] → Frag b s → Frag (c ++ b) (.data c :: s)
+  /-- a read that delivers bytes together with a deadline error (io.Reader allows both at once) -/
+  | tdata {b : Bytes} {s : List Ev} (c : Bytes) : c ≠ [] → Frag b s → Frag (c ++ b) (.tdata c :: s)
 
 theorem maxLen_lt_bufLen (k : ClientKind) : k.maxLen + 10 = k.bufLen := rfl
 
@@ -67,6 +69,31 @@ theorem readLoop_complete (k : ClientKind) (fl : Flusher) (reply : Bytes)
       simp only [h2, if_false, show ¬ ("nil" = "eof") by decide, false_and, Bool.false_eq_true]
       exact ih (acc ++ c) _ hpre hb
 
+  | @tdata b s c hc _ ih =>
+    intro acc log hacc _
+    unfold readLoop
+    have hlen : acc.length + c.length + b.length = reply.length := by
+      rw [← hacc]; simp [List.length_append]; omega
+    have hspace : c.length ≤ k.bufLen - acc.length := by
+      have := maxLen_lt_bufLen k; omega
+    simp only [Ev.read, List.take_of_length_le hspace]
+    have h1 : ¬ ((acc ++ c).length > k.maxLen) := by simp [List.length_append]; omega
+    have hpre : (acc ++ c) ++ b = reply := by rw [List.append_assoc]; exact hacc
+    simp only [show ¬ ("timeout" = "io") by decide, if_false, h1, hnoexc (acc ++ c) b hpre]
+    by_cases hb : b = []
+    · subst hb
+      have e : acc ++ c = reply := by simpa using hpre
+      have h3 : ¬ (reply.length = 0) := by
+        have : 0 < c.length := List.length_pos_iff.2 hc
+        rw [← e, List.length_append]; omega
+      simp only [e, ge_iff_le, Nat.le_refl, if_true, h3, if_false]
+      exact ⟨_, rfl⟩
+    · have h2 : ¬ ((acc ++ c).length ≥ reply.length) := by
+        have : 0 < b.length := List.length_pos_iff.2 hb
+        simp [List.length_append]; omega
+      simp only [h2, if_false, show ¬ ("timeout" = "eof") by decide, false_and, Bool.false_eq_true]
+      exact ih (acc ++ c) _ hpre hb
+
 end Modbus.Lemmas
 
 namespace Modbus.Lemmas
@@ -118,6 +145,29 @@ theorem readLoop_exception (k : ClientKind) (fl : Flusher) (expected : Nat) (x :
         have : 0 < b.length := List.length_pos_iff.2 hb
         simp [List.length_append]; omega
       simp only [h2, if_false, show ¬ ("nil" = "eof") by decide, false_and, Bool.false_eq_true]
+      exact ih (acc ++ c) _ hpre' hb
+
+  | @tdata b s c hc _ ih =>
+    intro acc log hacc _
+    unfold readLoop
+    have hlen : acc.length + c.length + b.length = x.length := by
+      rw [← hacc]; simp [List.length_append]; omega
+    have hspace : c.length ≤ k.bufLen - acc.length := by
+      have := maxLen_lt_bufLen k; omega
+    simp only [Ev.read, List.take_of_length_le hspace]
+    have h1 : ¬ ((acc ++ c).length > k.maxLen) := by simp [List.length_append]; omega
+    have hpre' : (acc ++ c) ++ b = x := by rw [List.append_assoc]; exact hacc
+    simp only [show ¬ ("timeout" = "io") by decide, if_false, h1]
+    by_cases hb : b = []
+    · subst hb
+      have e' : acc ++ c = x := by simpa using hpre'
+      rw [e', hx]
+      exact ⟨_, rfl⟩
+    · rw [hpre (acc ++ c) b hpre' hb]
+      have h2 : ¬ ((acc ++ c).length ≥ expected) := by
+        have : 0 < b.length := List.length_pos_iff.2 hb
+        simp [List.length_append]; omega
+      simp only [h2, if_false, show ¬ ("timeout" = "eof") by decide, false_and, Bool.false_eq_true]
       exact ih (acc ++ c) _ hpre' hb
 
 /-- a network-framed byte string that is not exactly 9 bytes long, or whose function byte has the high bit
